@@ -328,13 +328,18 @@ class RPC:
         self._raise_mode = raise_mode
         self._huge_tree = huge_tree
         self._id = uuid4().urn # Keeps things simple instead of having a class attr with running ID that has to be locked
-        self._listener = RPCReplyListener(session, device_handler)
-        self._listener.register(self._id, self)
         self._reply = None
         self._error = None
         self._event = Event()
         self._device_handler = device_handler
         self.logger = SessionLoggerAdapter(logger, {'session': session})
+        # Register last: from here on the session thread may deliver a reply or an
+        # error to this object, so everything deliver_reply/deliver_error touch
+        # must exist (a connection loss between the registration and the creation
+        # of the event aborted the error broadcast with AttributeError and left
+        # the requests registered after this one waiting for their timeout)
+        self._listener = RPCReplyListener(session, device_handler)
+        self._listener.register(self._id, self)
 
 
     def _wrap(self, subele):
